@@ -66,6 +66,14 @@ type upCert struct {
 	Names   [][]string `json:"names"`
 	Ca      string     `json:"ca"`
 	Expired bool       `json:"expired"`
+	// issued short-lived: valid when MOSN connects first, run out when it connects again (returning cases)
+	Short bool `json:"short"`
+}
+
+// resCase marks a returning peer: a first connection under the initial configuration, then the update history and / or
+// (Expire) the end of validity of its short-lived certificate, then a second connection offering the session ticket.
+type resCase struct {
+	Expire bool `json:"expire"`
 }
 
 // updCase is a runtime update of one field of the context at Pos (0: the cluster tls config of an upstream case).
@@ -121,6 +129,7 @@ type tcase struct {
 	Hello *helloCase `json:"hello"`
 	Cfg   *upCfg     `json:"cfg"`
 	Cert  *upCert    `json:"cert"`
+	Res   *resCase   `json:"res"`
 }
 
 func dotted(labels []string) string { return strings.Join(labels, ".") }
@@ -179,6 +188,11 @@ type group struct {
 	insp    bool
 	hellos []tcase
 	events []vh.Ev
+	// returning peers (every hello of the group is one): the peers' state between their two connections, and the
+	// manager serving the group after the update history (direct mode)
+	res  bool
+	rets []*returning
+	mng  types.TLSContextManager
 }
 
 type srvRes struct {
@@ -223,10 +237,12 @@ type worker struct {
 
 // handshake runs one case. mng != nil: the manager is served in-process behind w.ln (direct mode);
 // mng == nil: addr is a listener of an in-process MOSN whose tcp proxy echoes what it receives (e2e mode).
-func (w *worker) handshake(mng types.TLSContextManager, addr string, tc tcase) (vh.Ev, error) {
+// ret != nil: the client is a returning peer (own session cache, own certificate).
+func (w *worker) handshake(mng types.TLSContextManager, addr string, tc tcase, ret *returning) (vh.Ev, error) {
 	h := tc.Hello
 	ev := vh.Ev{"ev": "hs", "first": tc.First, "sni": nonNil(h.Sni), "up": h.Up, "alpn": nonNil(h.Alpn),
-		"peer": h.Peer, "vers": h.Vers, "plain": false, "cert": 0, "ok": false}
+		"peer": h.Peer, "vers": h.Vers, "plain": false, "cert": 0, "ok": false, "ticket": false, "resumed": false, "late": "no"}
+	t0 := time.Now()
 	e2e := mng == nil
 	if !e2e {
 		addr = w.ln.Addr().String()
@@ -267,11 +283,19 @@ func (w *worker) handshake(mng types.TLSContextManager, addr string, tc tcase) (
 		} else {
 			cfg.MinVersion, cfg.MaxVersion = gotls.VersionTLS13, gotls.VersionTLS13
 		}
-		peer := w.pki.peer(h.Peer)
+		var peer *gotls.Certificate
+		if ret != nil {
+			peer = ret.cert
+			ret.cache.begin()
+			cfg.ClientSessionCache = ret.cache
+		} else {
+			peer = w.pki.peer(h.Peer)
+		}
 		cfg.GetClientCertificate = func(*gotls.CertificateRequestInfo) (*gotls.Certificate, error) { return peer, nil }
 		tconn := gotls.Client(cc, cfg)
 		cerr = tconn.Handshake()
 		st := tconn.ConnectionState()
+		ev["resumed"] = st.DidResume
 		if len(st.PeerCertificates) > 0 && len(st.PeerCertificates[0].Subject.Organization) > 0 {
 			var pos int
 			fmt.Sscanf(st.PeerCertificates[0].Subject.Organization[0], "ctx-%d", &pos)
@@ -288,6 +312,10 @@ func (w *worker) handshake(mng types.TLSContextManager, addr string, tc tcase) (
 			}
 		}
 		ev["proto"] = st.NegotiatedProtocol
+		if ret != nil {
+			ev["ticket"] = ret.cache.held()
+			ev["late"] = lateness(ret.notAfter, t0, time.Now())
+		}
 	}
 	cc.Close()
 	sr := <-done
@@ -566,6 +594,11 @@ func (w *worker) runGroup(g *group, mock *sdsMock) error {
 		g.events = append(g.events, evs...)
 		return w.hellos(g, mng, "")
 	}
+	if g.res { // returning peers connect first under the initial configuration
+		if err := w.firstVisits(g, mng, ""); err != nil {
+			return err
+		}
+	}
 	for _, u := range g.upds {
 		ev, err := lg.apply(u, reconfigure)
 		if err != nil {
@@ -573,15 +606,23 @@ func (w *worker) runGroup(g *group, mock *sdsMock) error {
 		}
 		g.events = append(g.events, ev)
 	}
+	if g.res { // ... and again (worker.hellos) once every short-lived certificate of the run has run out
+		g.mng = mng
+		return nil
+	}
 	return w.hellos(g, mng, "")
 }
 
 func (w *worker) hellos(g *group, mng types.TLSContextManager, addr string) error {
-	for _, tc := range g.hellos {
+	for k, tc := range g.hellos {
 		var ev vh.Ev
 		var err error
+		var ret *returning
+		if g.res {
+			ret = g.rets[k]
+		}
 		for attempt := 0; attempt < 3; attempt++ {
-			ev, err = w.handshake(mng, addr, tc)
+			ev, err = w.handshake(mng, addr, tc, ret)
 			if err == nil {
 				break
 			}
@@ -829,7 +870,7 @@ func runUp(p *pki, mock *sdsMock, j upJob, idx, attempt int) (vh.Ev, error) {
 	}
 	defer raw.Close()
 	nn := tc.Cert.Names
-	ev := vh.Ev{"ev": "up", "upplain": false, "upds": upds, "variant": variant, "cfg": cfg0,
+	ev := vh.Ev{"ev": "up", "upplain": false, "upds": upds, "variant": variant, "cfg": cfg0, "late": "no", "resumed": false,
 		"cert": vh.Ev{"names": nn, "ca": tc.Cert.Ca, "expired": tc.Cert.Expired}, "ok": false}
 	c, cerr := mng.Conn(raw)
 	if cerr == nil {
@@ -906,7 +947,7 @@ func main() {
 			ups = append(ups, tc)
 			return nil
 		}
-		kb, _ := json.Marshal([]interface{}{tc.Ctxs, tc.Insp, tc.Upds, tc.Sched})
+		kb, _ := json.Marshal([]interface{}{tc.Ctxs, tc.Insp, tc.Upds, tc.Sched, tc.Res != nil})
 		variants := []string{"seed"}
 		if len(tc.Ctxs) > 0 && tc.Ctxs[0].CaSrc != "" {
 			variants = []string{"explicit"} // the case says where the material of every context comes from
@@ -916,7 +957,7 @@ func main() {
 		for _, v := range variants {
 			g := groups[string(kb)+v]
 			if g == nil {
-				g = &group{idx: len(order), ctxs: tc.Ctxs, upds: tc.Upds, variant: v, insp: tc.Insp, race: tc.Race, sched: tc.Sched}
+				g = &group{idx: len(order), ctxs: tc.Ctxs, upds: tc.Upds, variant: v, insp: tc.Insp, race: tc.Race, sched: tc.Sched, res: tc.Res != nil}
 				groups[string(kb)+v] = g
 				order = append(order, g)
 			}
@@ -930,35 +971,111 @@ func main() {
 		return
 	}
 
-	work := make(chan *group)
-	var wg sync.WaitGroup
-	var failMu sync.Mutex
-	var fail error
-	for i := 0; i < *par; i++ {
+	workers := make([]*worker, *par)
+	for i := range workers {
 		ln, err := net.Listen("tcp", "127.0.0.1:0")
 		vh.Must(err, "listen")
-		w := &worker{ln: ln, pki: p}
-		wg.Add(1)
-		go func() {
-			defer wg.Done()
-			defer ln.Close()
-			for g := range work {
-				if err := w.runGroup(g, mock); err != nil {
-					failMu.Lock()
-					if fail == nil {
-						fail = err
+		defer ln.Close()
+		workers[i] = &worker{ln: ln, pki: p}
+	}
+	// each worker takes groups off the queue and runs f on them
+	forAll := func(gs []*group, f func(*worker, *group) error) error {
+		work := make(chan *group)
+		var wg sync.WaitGroup
+		var failMu sync.Mutex
+		var fail error
+		for _, w := range workers {
+			wg.Add(1)
+			go func(w *worker) {
+				defer wg.Done()
+				for g := range work {
+					if err := f(w, g); err != nil {
+						failMu.Lock()
+						if fail == nil {
+							fail = err
+						}
+						failMu.Unlock()
 					}
-					failMu.Unlock()
 				}
+			}(w)
+		}
+		for _, g := range gs {
+			work <- g
+		}
+		close(work)
+		wg.Wait()
+		return fail
+	}
+	// returning peers (server side and upstream side) pay their first visit before everything else, so that their
+	// short-lived certificates run out while the other cases are replayed; they come back at the very end
+	jobs := upJobs(ups)
+	upEvs := make([][]vh.Ev, len(jobs))
+	upErr := make([]error, len(jobs))
+	upRets := make([]*upReturning, len(jobs))
+	var uwg sync.WaitGroup
+	sem := make(chan struct{}, *par)
+	forJobs := func(f func(i int, j upJob)) {
+		for i, j := range jobs {
+			if j.tc.Res != nil {
+				continue
 			}
-		}()
+			uwg.Add(1)
+			sem <- struct{}{}
+			go func(i int, j upJob) {
+				defer uwg.Done()
+				defer func() { <-sem }()
+				f(i, j)
+			}(i, j)
+		}
+		uwg.Wait()
 	}
+	// (one after the other: were sessions ever cached on MOSN's side, the visits of two cases could not get mixed up.)
+	// A case that does not wait for a certificate to run out comes back at once.
+	for i, j := range jobs {
+		if j.tc.Res == nil {
+			continue
+		}
+		var ev vh.Ev
+		upRets[i], ev, upErr[i] = upFirstVisit(p, mock, j, i)
+		upEvs[i] = append(upEvs[i], ev)
+		if upErr[i] == nil && !j.tc.Res.Expire {
+			ev, upErr[i] = upRets[i].secondVisit()
+			upEvs[i] = append(upEvs[i], ev)
+		}
+	}
+	var resGroups, plainGroups []*group
 	for _, g := range order {
-		work <- g
+		if g.res {
+			resGroups = append(resGroups, g)
+		} else {
+			plainGroups = append(plainGroups, g)
+		}
 	}
-	close(work)
-	wg.Wait()
-	vh.Must(fail, "server cases")
+	run := func(w *worker, g *group) error { return w.runGroup(g, mock) }
+	vh.Must(forAll(resGroups, run), "server cases (returning peers, first visit)")
+	vh.Must(forAll(plainGroups, run), "server cases")
+	forJobs(func(i int, j upJob) {
+		for attempt := 0; attempt < 3; attempt++ {
+			var ev vh.Ev
+			ev, upErr[i] = runUp(p, mock, j, i, attempt)
+			upEvs[i] = []vh.Ev{ev}
+			if upErr[i] == nil {
+				break
+			}
+		}
+	})
+	slept := p.waitExpired()
+	vh.Must(forAll(resGroups, func(w *worker, g *group) error {
+		g.events = append(g.events, vh.Ev{"ev": "wait", "ms": slept.Milliseconds()})
+		return w.hellos(g, g.mng, "")
+	}), "server cases (returning peers, second visit)")
+	for i, j := range jobs {
+		if j.tc.Res != nil && j.tc.Res.Expire && upErr[i] == nil {
+			var ev vh.Ev
+			ev, upErr[i] = upRets[i].secondVisit()
+			upEvs[i] = append(upEvs[i], ev)
+		}
+	}
 
 	tr := vh.NewTrace(*out)
 	nh := 0
@@ -967,33 +1084,18 @@ func main() {
 			tr.Emit(e)
 		}
 		nh += len(g.hellos)
+		if g.res {
+			nh += len(g.hellos)
+		}
 	}
-	jobs := upJobs(ups)
-	upEvs := make([]vh.Ev, len(jobs))
-	upErr := make([]error, len(jobs))
-	var uwg sync.WaitGroup
-	sem := make(chan struct{}, *par)
-	for i, j := range jobs {
-		uwg.Add(1)
-		sem <- struct{}{}
-		go func(i int, j upJob) {
-			defer uwg.Done()
-			defer func() { <-sem }()
-			for attempt := 0; attempt < 3; attempt++ {
-				upEvs[i], upErr[i] = runUp(p, mock, j, i, attempt)
-				if upErr[i] == nil {
-					break
-				}
-			}
-		}(i, j)
-	}
-	uwg.Wait()
 	nu := 0
 	for i := range jobs {
 		vh.Must(upErr[i], "upstream case")
-		tr.Emit(upEvs[i])
-		nu++
+		for _, e := range upEvs[i] {
+			tr.Emit(e)
+			nu++
+		}
 	}
 	tr.Close()
-	fmt.Fprintf(os.Stdout, "groups=%d handshakes=%d upstream=%d events=%d\n", len(order), nh, nu, tr.Len())
+	fmt.Fprintf(os.Stdout, "groups=%d handshakes=%d upstream=%d events=%d waited_ms=%d\n", len(order), nh, nu, tr.Len(), slept.Milliseconds())
 }
